@@ -3,8 +3,9 @@
 // Primitive kinds {Extant, Int32, Int64, UInt32, UInt64, Boolean, Float64} with FULLY symbolic payloads; every harness is
 // loop-free (floats are bit-precise in CBMC) => each is a complete proof of its cell, not a bounded check.
 // One harness per kind combination ("cell"): refl_<k>, pair_<k1>_<k2> (unordered pair, both argument orders checked by the
-// symmetric formulation of the laws), triple_<k1>_<k2>_<k3> (kind multiset, the arrangement of the three values is symbolic),
-// so a finding is pinned to its cell and a new incoherent cell is reported separately.
+// symmetric formulation of the laws), so a finding is pinned to its cell and a new incoherent cell is reported separately.
+// Transitivity is not a triple harness (those exhaust CBMC: > 15 min and > 3 GB per cell) but a consequence of the two
+// reference-key obligations of every non-float pair cell (see law_pair).
 use super::*;
 use std::cmp::Ordering;
 use std::hash::{Hash, Hasher};
@@ -59,29 +60,26 @@ fn law_pair(a: &Value, b: &Value) {
     assert!(!ab || h(a) == h(b), "OBL eq_implies_same_hash");
     assert!(a.cmp(b) == rev(b.cmp(a)), "OBL cmp_antisym");
     assert!((a.cmp(b) == Ordering::Equal) == ab, "OBL cmp_equal_iff_eq");
-}
-fn law_triple(a: &Value, b: &Value, c: &Value) {
-    assert!(!(a == b && b == c) || a == c, "OBL eq_trans");
-    let ab = a.cmp(b);
-    let bc = b.cmp(c);
-    let ac = a.cmp(c);
-    assert!(!(ab != Ordering::Greater && bc != Ordering::Greater) || ac != Ordering::Greater, "OBL cmp_trans_le");
-    assert!(!(ab == Ordering::Less && bc != Ordering::Greater) || ac == Ordering::Less, "OBL cmp_trans_lt");
-}
-// a symbolic arrangement of three values (so one harness covers every order of its kind multiset)
-fn arrange(x: Value, y: Value, z: Value) -> (Value, Value, Value) {
-    let p: u8 = kani::any();
-    kani::assume(p < 6);
-    match p {
-        0 => (x, y, z),
-        1 => (x, z, y),
-        2 => (y, x, z),
-        3 => (y, z, x),
-        4 => (z, x, y),
-        _ => (z, y, x),
+    // TRANSITIVITY (of == and of the order) for the non-float kinds, for all values: both relations are those induced by the
+    // reference key below, and equality / lexicographic order on (u8, i128) are transitive. (Symbolic triple cells do not
+    // terminate under CBMC; for pairs involving Float64 the order is NOT transitive -- open finding, see value_pool.)
+    if let (Some(ka), Some(kb)) = (key(a), key(b)) {
+        assert!(a.cmp(b) == ka.cmp(&kb), "OBL cmp_is_the_order_of_the_reference_key");
+        assert!(ab == (ka == kb), "OBL eq_is_equality_of_the_reference_key");
     }
 }
-
+// reference key: numbers (any width, by numeric value) < booleans (false < true) < Extant
+fn key(v: &Value) -> Option<(u8, i128)> {
+    match v {
+        Value::Extant => Some((2, 0)),
+        Value::BooleanValue(p) => Some((1, *p as i128)),
+        Value::Int32Value(n) => Some((0, *n as i128)),
+        Value::Int64Value(n) => Some((0, *n as i128)),
+        Value::UInt32Value(n) => Some((0, *n as i128)),
+        Value::UInt64Value(n) => Some((0, *n as i128)),
+        _ => None,
+    }
+}
 #[kani::proof]
 fn refl_extant() {
     let a = mk(0);
@@ -319,508 +317,4 @@ fn pair_f64_f64() {
     let b = mk(6);
     kani::cover!(true, "COV reached");
     law_pair(&a, &b);
-}
-#[kani::proof]
-fn triple_extant_extant_extant() {
-    let (a, b, c) = arrange(mk(0), mk(0), mk(0));
-    kani::cover!(true, "COV reached");
-    law_triple(&a, &b, &c);
-}
-#[kani::proof]
-fn triple_extant_extant_i32() {
-    let (a, b, c) = arrange(mk(0), mk(0), mk(1));
-    kani::cover!(true, "COV reached");
-    law_triple(&a, &b, &c);
-}
-#[kani::proof]
-fn triple_extant_extant_i64() {
-    let (a, b, c) = arrange(mk(0), mk(0), mk(2));
-    kani::cover!(true, "COV reached");
-    law_triple(&a, &b, &c);
-}
-#[kani::proof]
-fn triple_extant_extant_u32() {
-    let (a, b, c) = arrange(mk(0), mk(0), mk(3));
-    kani::cover!(true, "COV reached");
-    law_triple(&a, &b, &c);
-}
-#[kani::proof]
-fn triple_extant_extant_u64() {
-    let (a, b, c) = arrange(mk(0), mk(0), mk(4));
-    kani::cover!(true, "COV reached");
-    law_triple(&a, &b, &c);
-}
-#[kani::proof]
-fn triple_extant_extant_bool() {
-    let (a, b, c) = arrange(mk(0), mk(0), mk(5));
-    kani::cover!(true, "COV reached");
-    law_triple(&a, &b, &c);
-}
-#[kani::proof]
-fn triple_extant_extant_f64() {
-    let (a, b, c) = arrange(mk(0), mk(0), mk(6));
-    kani::cover!(true, "COV reached");
-    law_triple(&a, &b, &c);
-}
-#[kani::proof]
-fn triple_extant_i32_i32() {
-    let (a, b, c) = arrange(mk(0), mk(1), mk(1));
-    kani::cover!(true, "COV reached");
-    law_triple(&a, &b, &c);
-}
-#[kani::proof]
-fn triple_extant_i32_i64() {
-    let (a, b, c) = arrange(mk(0), mk(1), mk(2));
-    kani::cover!(true, "COV reached");
-    law_triple(&a, &b, &c);
-}
-#[kani::proof]
-fn triple_extant_i32_u32() {
-    let (a, b, c) = arrange(mk(0), mk(1), mk(3));
-    kani::cover!(true, "COV reached");
-    law_triple(&a, &b, &c);
-}
-#[kani::proof]
-fn triple_extant_i32_u64() {
-    let (a, b, c) = arrange(mk(0), mk(1), mk(4));
-    kani::cover!(true, "COV reached");
-    law_triple(&a, &b, &c);
-}
-#[kani::proof]
-fn triple_extant_i32_bool() {
-    let (a, b, c) = arrange(mk(0), mk(1), mk(5));
-    kani::cover!(true, "COV reached");
-    law_triple(&a, &b, &c);
-}
-#[kani::proof]
-fn triple_extant_i32_f64() {
-    let (a, b, c) = arrange(mk(0), mk(1), mk(6));
-    kani::cover!(true, "COV reached");
-    law_triple(&a, &b, &c);
-}
-#[kani::proof]
-fn triple_extant_i64_i64() {
-    let (a, b, c) = arrange(mk(0), mk(2), mk(2));
-    kani::cover!(true, "COV reached");
-    law_triple(&a, &b, &c);
-}
-#[kani::proof]
-fn triple_extant_i64_u32() {
-    let (a, b, c) = arrange(mk(0), mk(2), mk(3));
-    kani::cover!(true, "COV reached");
-    law_triple(&a, &b, &c);
-}
-#[kani::proof]
-fn triple_extant_i64_u64() {
-    let (a, b, c) = arrange(mk(0), mk(2), mk(4));
-    kani::cover!(true, "COV reached");
-    law_triple(&a, &b, &c);
-}
-#[kani::proof]
-fn triple_extant_i64_bool() {
-    let (a, b, c) = arrange(mk(0), mk(2), mk(5));
-    kani::cover!(true, "COV reached");
-    law_triple(&a, &b, &c);
-}
-#[kani::proof]
-fn triple_extant_i64_f64() {
-    let (a, b, c) = arrange(mk(0), mk(2), mk(6));
-    kani::cover!(true, "COV reached");
-    law_triple(&a, &b, &c);
-}
-#[kani::proof]
-fn triple_extant_u32_u32() {
-    let (a, b, c) = arrange(mk(0), mk(3), mk(3));
-    kani::cover!(true, "COV reached");
-    law_triple(&a, &b, &c);
-}
-#[kani::proof]
-fn triple_extant_u32_u64() {
-    let (a, b, c) = arrange(mk(0), mk(3), mk(4));
-    kani::cover!(true, "COV reached");
-    law_triple(&a, &b, &c);
-}
-#[kani::proof]
-fn triple_extant_u32_bool() {
-    let (a, b, c) = arrange(mk(0), mk(3), mk(5));
-    kani::cover!(true, "COV reached");
-    law_triple(&a, &b, &c);
-}
-#[kani::proof]
-fn triple_extant_u32_f64() {
-    let (a, b, c) = arrange(mk(0), mk(3), mk(6));
-    kani::cover!(true, "COV reached");
-    law_triple(&a, &b, &c);
-}
-#[kani::proof]
-fn triple_extant_u64_u64() {
-    let (a, b, c) = arrange(mk(0), mk(4), mk(4));
-    kani::cover!(true, "COV reached");
-    law_triple(&a, &b, &c);
-}
-#[kani::proof]
-fn triple_extant_u64_bool() {
-    let (a, b, c) = arrange(mk(0), mk(4), mk(5));
-    kani::cover!(true, "COV reached");
-    law_triple(&a, &b, &c);
-}
-#[kani::proof]
-fn triple_extant_u64_f64() {
-    let (a, b, c) = arrange(mk(0), mk(4), mk(6));
-    kani::cover!(true, "COV reached");
-    law_triple(&a, &b, &c);
-}
-#[kani::proof]
-fn triple_extant_bool_bool() {
-    let (a, b, c) = arrange(mk(0), mk(5), mk(5));
-    kani::cover!(true, "COV reached");
-    law_triple(&a, &b, &c);
-}
-#[kani::proof]
-fn triple_extant_bool_f64() {
-    let (a, b, c) = arrange(mk(0), mk(5), mk(6));
-    kani::cover!(true, "COV reached");
-    law_triple(&a, &b, &c);
-}
-#[kani::proof]
-fn triple_extant_f64_f64() {
-    let (a, b, c) = arrange(mk(0), mk(6), mk(6));
-    kani::cover!(true, "COV reached");
-    law_triple(&a, &b, &c);
-}
-#[kani::proof]
-fn triple_i32_i32_i32() {
-    let (a, b, c) = arrange(mk(1), mk(1), mk(1));
-    kani::cover!(true, "COV reached");
-    law_triple(&a, &b, &c);
-}
-#[kani::proof]
-fn triple_i32_i32_i64() {
-    let (a, b, c) = arrange(mk(1), mk(1), mk(2));
-    kani::cover!(true, "COV reached");
-    law_triple(&a, &b, &c);
-}
-#[kani::proof]
-fn triple_i32_i32_u32() {
-    let (a, b, c) = arrange(mk(1), mk(1), mk(3));
-    kani::cover!(true, "COV reached");
-    law_triple(&a, &b, &c);
-}
-#[kani::proof]
-fn triple_i32_i32_u64() {
-    let (a, b, c) = arrange(mk(1), mk(1), mk(4));
-    kani::cover!(true, "COV reached");
-    law_triple(&a, &b, &c);
-}
-#[kani::proof]
-fn triple_i32_i32_bool() {
-    let (a, b, c) = arrange(mk(1), mk(1), mk(5));
-    kani::cover!(true, "COV reached");
-    law_triple(&a, &b, &c);
-}
-#[kani::proof]
-fn triple_i32_i32_f64() {
-    let (a, b, c) = arrange(mk(1), mk(1), mk(6));
-    kani::cover!(true, "COV reached");
-    law_triple(&a, &b, &c);
-}
-#[kani::proof]
-fn triple_i32_i64_i64() {
-    let (a, b, c) = arrange(mk(1), mk(2), mk(2));
-    kani::cover!(true, "COV reached");
-    law_triple(&a, &b, &c);
-}
-#[kani::proof]
-fn triple_i32_i64_u32() {
-    let (a, b, c) = arrange(mk(1), mk(2), mk(3));
-    kani::cover!(true, "COV reached");
-    law_triple(&a, &b, &c);
-}
-#[kani::proof]
-fn triple_i32_i64_u64() {
-    let (a, b, c) = arrange(mk(1), mk(2), mk(4));
-    kani::cover!(true, "COV reached");
-    law_triple(&a, &b, &c);
-}
-#[kani::proof]
-fn triple_i32_i64_bool() {
-    let (a, b, c) = arrange(mk(1), mk(2), mk(5));
-    kani::cover!(true, "COV reached");
-    law_triple(&a, &b, &c);
-}
-#[kani::proof]
-fn triple_i32_i64_f64() {
-    let (a, b, c) = arrange(mk(1), mk(2), mk(6));
-    kani::cover!(true, "COV reached");
-    law_triple(&a, &b, &c);
-}
-#[kani::proof]
-fn triple_i32_u32_u32() {
-    let (a, b, c) = arrange(mk(1), mk(3), mk(3));
-    kani::cover!(true, "COV reached");
-    law_triple(&a, &b, &c);
-}
-#[kani::proof]
-fn triple_i32_u32_u64() {
-    let (a, b, c) = arrange(mk(1), mk(3), mk(4));
-    kani::cover!(true, "COV reached");
-    law_triple(&a, &b, &c);
-}
-#[kani::proof]
-fn triple_i32_u32_bool() {
-    let (a, b, c) = arrange(mk(1), mk(3), mk(5));
-    kani::cover!(true, "COV reached");
-    law_triple(&a, &b, &c);
-}
-#[kani::proof]
-fn triple_i32_u32_f64() {
-    let (a, b, c) = arrange(mk(1), mk(3), mk(6));
-    kani::cover!(true, "COV reached");
-    law_triple(&a, &b, &c);
-}
-#[kani::proof]
-fn triple_i32_u64_u64() {
-    let (a, b, c) = arrange(mk(1), mk(4), mk(4));
-    kani::cover!(true, "COV reached");
-    law_triple(&a, &b, &c);
-}
-#[kani::proof]
-fn triple_i32_u64_bool() {
-    let (a, b, c) = arrange(mk(1), mk(4), mk(5));
-    kani::cover!(true, "COV reached");
-    law_triple(&a, &b, &c);
-}
-#[kani::proof]
-fn triple_i32_u64_f64() {
-    let (a, b, c) = arrange(mk(1), mk(4), mk(6));
-    kani::cover!(true, "COV reached");
-    law_triple(&a, &b, &c);
-}
-#[kani::proof]
-fn triple_i32_bool_bool() {
-    let (a, b, c) = arrange(mk(1), mk(5), mk(5));
-    kani::cover!(true, "COV reached");
-    law_triple(&a, &b, &c);
-}
-#[kani::proof]
-fn triple_i32_bool_f64() {
-    let (a, b, c) = arrange(mk(1), mk(5), mk(6));
-    kani::cover!(true, "COV reached");
-    law_triple(&a, &b, &c);
-}
-#[kani::proof]
-fn triple_i32_f64_f64() {
-    let (a, b, c) = arrange(mk(1), mk(6), mk(6));
-    kani::cover!(true, "COV reached");
-    law_triple(&a, &b, &c);
-}
-#[kani::proof]
-fn triple_i64_i64_i64() {
-    let (a, b, c) = arrange(mk(2), mk(2), mk(2));
-    kani::cover!(true, "COV reached");
-    law_triple(&a, &b, &c);
-}
-#[kani::proof]
-fn triple_i64_i64_u32() {
-    let (a, b, c) = arrange(mk(2), mk(2), mk(3));
-    kani::cover!(true, "COV reached");
-    law_triple(&a, &b, &c);
-}
-#[kani::proof]
-fn triple_i64_i64_u64() {
-    let (a, b, c) = arrange(mk(2), mk(2), mk(4));
-    kani::cover!(true, "COV reached");
-    law_triple(&a, &b, &c);
-}
-#[kani::proof]
-fn triple_i64_i64_bool() {
-    let (a, b, c) = arrange(mk(2), mk(2), mk(5));
-    kani::cover!(true, "COV reached");
-    law_triple(&a, &b, &c);
-}
-#[kani::proof]
-fn triple_i64_i64_f64() {
-    let (a, b, c) = arrange(mk(2), mk(2), mk(6));
-    kani::cover!(true, "COV reached");
-    law_triple(&a, &b, &c);
-}
-#[kani::proof]
-fn triple_i64_u32_u32() {
-    let (a, b, c) = arrange(mk(2), mk(3), mk(3));
-    kani::cover!(true, "COV reached");
-    law_triple(&a, &b, &c);
-}
-#[kani::proof]
-fn triple_i64_u32_u64() {
-    let (a, b, c) = arrange(mk(2), mk(3), mk(4));
-    kani::cover!(true, "COV reached");
-    law_triple(&a, &b, &c);
-}
-#[kani::proof]
-fn triple_i64_u32_bool() {
-    let (a, b, c) = arrange(mk(2), mk(3), mk(5));
-    kani::cover!(true, "COV reached");
-    law_triple(&a, &b, &c);
-}
-#[kani::proof]
-fn triple_i64_u32_f64() {
-    let (a, b, c) = arrange(mk(2), mk(3), mk(6));
-    kani::cover!(true, "COV reached");
-    law_triple(&a, &b, &c);
-}
-#[kani::proof]
-fn triple_i64_u64_u64() {
-    let (a, b, c) = arrange(mk(2), mk(4), mk(4));
-    kani::cover!(true, "COV reached");
-    law_triple(&a, &b, &c);
-}
-#[kani::proof]
-fn triple_i64_u64_bool() {
-    let (a, b, c) = arrange(mk(2), mk(4), mk(5));
-    kani::cover!(true, "COV reached");
-    law_triple(&a, &b, &c);
-}
-#[kani::proof]
-fn triple_i64_u64_f64() {
-    let (a, b, c) = arrange(mk(2), mk(4), mk(6));
-    kani::cover!(true, "COV reached");
-    law_triple(&a, &b, &c);
-}
-#[kani::proof]
-fn triple_i64_bool_bool() {
-    let (a, b, c) = arrange(mk(2), mk(5), mk(5));
-    kani::cover!(true, "COV reached");
-    law_triple(&a, &b, &c);
-}
-#[kani::proof]
-fn triple_i64_bool_f64() {
-    let (a, b, c) = arrange(mk(2), mk(5), mk(6));
-    kani::cover!(true, "COV reached");
-    law_triple(&a, &b, &c);
-}
-#[kani::proof]
-fn triple_i64_f64_f64() {
-    let (a, b, c) = arrange(mk(2), mk(6), mk(6));
-    kani::cover!(true, "COV reached");
-    law_triple(&a, &b, &c);
-}
-#[kani::proof]
-fn triple_u32_u32_u32() {
-    let (a, b, c) = arrange(mk(3), mk(3), mk(3));
-    kani::cover!(true, "COV reached");
-    law_triple(&a, &b, &c);
-}
-#[kani::proof]
-fn triple_u32_u32_u64() {
-    let (a, b, c) = arrange(mk(3), mk(3), mk(4));
-    kani::cover!(true, "COV reached");
-    law_triple(&a, &b, &c);
-}
-#[kani::proof]
-fn triple_u32_u32_bool() {
-    let (a, b, c) = arrange(mk(3), mk(3), mk(5));
-    kani::cover!(true, "COV reached");
-    law_triple(&a, &b, &c);
-}
-#[kani::proof]
-fn triple_u32_u32_f64() {
-    let (a, b, c) = arrange(mk(3), mk(3), mk(6));
-    kani::cover!(true, "COV reached");
-    law_triple(&a, &b, &c);
-}
-#[kani::proof]
-fn triple_u32_u64_u64() {
-    let (a, b, c) = arrange(mk(3), mk(4), mk(4));
-    kani::cover!(true, "COV reached");
-    law_triple(&a, &b, &c);
-}
-#[kani::proof]
-fn triple_u32_u64_bool() {
-    let (a, b, c) = arrange(mk(3), mk(4), mk(5));
-    kani::cover!(true, "COV reached");
-    law_triple(&a, &b, &c);
-}
-#[kani::proof]
-fn triple_u32_u64_f64() {
-    let (a, b, c) = arrange(mk(3), mk(4), mk(6));
-    kani::cover!(true, "COV reached");
-    law_triple(&a, &b, &c);
-}
-#[kani::proof]
-fn triple_u32_bool_bool() {
-    let (a, b, c) = arrange(mk(3), mk(5), mk(5));
-    kani::cover!(true, "COV reached");
-    law_triple(&a, &b, &c);
-}
-#[kani::proof]
-fn triple_u32_bool_f64() {
-    let (a, b, c) = arrange(mk(3), mk(5), mk(6));
-    kani::cover!(true, "COV reached");
-    law_triple(&a, &b, &c);
-}
-#[kani::proof]
-fn triple_u32_f64_f64() {
-    let (a, b, c) = arrange(mk(3), mk(6), mk(6));
-    kani::cover!(true, "COV reached");
-    law_triple(&a, &b, &c);
-}
-#[kani::proof]
-fn triple_u64_u64_u64() {
-    let (a, b, c) = arrange(mk(4), mk(4), mk(4));
-    kani::cover!(true, "COV reached");
-    law_triple(&a, &b, &c);
-}
-#[kani::proof]
-fn triple_u64_u64_bool() {
-    let (a, b, c) = arrange(mk(4), mk(4), mk(5));
-    kani::cover!(true, "COV reached");
-    law_triple(&a, &b, &c);
-}
-#[kani::proof]
-fn triple_u64_u64_f64() {
-    let (a, b, c) = arrange(mk(4), mk(4), mk(6));
-    kani::cover!(true, "COV reached");
-    law_triple(&a, &b, &c);
-}
-#[kani::proof]
-fn triple_u64_bool_bool() {
-    let (a, b, c) = arrange(mk(4), mk(5), mk(5));
-    kani::cover!(true, "COV reached");
-    law_triple(&a, &b, &c);
-}
-#[kani::proof]
-fn triple_u64_bool_f64() {
-    let (a, b, c) = arrange(mk(4), mk(5), mk(6));
-    kani::cover!(true, "COV reached");
-    law_triple(&a, &b, &c);
-}
-#[kani::proof]
-fn triple_u64_f64_f64() {
-    let (a, b, c) = arrange(mk(4), mk(6), mk(6));
-    kani::cover!(true, "COV reached");
-    law_triple(&a, &b, &c);
-}
-#[kani::proof]
-fn triple_bool_bool_bool() {
-    let (a, b, c) = arrange(mk(5), mk(5), mk(5));
-    kani::cover!(true, "COV reached");
-    law_triple(&a, &b, &c);
-}
-#[kani::proof]
-fn triple_bool_bool_f64() {
-    let (a, b, c) = arrange(mk(5), mk(5), mk(6));
-    kani::cover!(true, "COV reached");
-    law_triple(&a, &b, &c);
-}
-#[kani::proof]
-fn triple_bool_f64_f64() {
-    let (a, b, c) = arrange(mk(5), mk(6), mk(6));
-    kani::cover!(true, "COV reached");
-    law_triple(&a, &b, &c);
-}
-#[kani::proof]
-fn triple_f64_f64_f64() {
-    let (a, b, c) = arrange(mk(6), mk(6), mk(6));
-    kani::cover!(true, "COV reached");
-    law_triple(&a, &b, &c);
 }
